@@ -46,7 +46,7 @@ def gen_cases(tier, seed):
                 cases.append({"kind": "eof", "cks": cks, "size": size, "mode": mode, "seed": seed})
     # long-lived sender: several transfers of different files through the same handler / user / filestore objects, with lost ACK(EOF)s
     # (the EOF is generated again at the timer expiry) and cancels
-    nseq = 120 if tier == "quick" else 3000
+    nseq = 400 if tier == "quick" else 6000
     for i in range(nseq):
         cases.append({"kind": "eofseq", "seed": seed * 7919 + 100_000 + i})
     return cases
@@ -132,10 +132,14 @@ def run_case(case):
                 w.data = rng.randbytes(size)
                 w.cfg["size"] = size
                 w.write_raw("src", w.src_path, w.data)
-                drops = {"n": rng.choice([0, 1, 2])}
+                drops = {"n": rng.choice([0, 1, 2]), "silent": rng.random() < 0.25}
 
                 class DropAckEof(Plan):
                     def on_emit(self, idx, item):
+                        if drops["silent"] and item["side"] == "D":
+                            # the receiver is not heard at all: every EOF (also an EOF (cancel)) is generated again at each timer expiry
+                            self.applied.append((idx, "drop", item["d"].get("kind"), "D"))
+                            return []
                         if item["d"].get("kind") == "ACK_EOF" and drops["n"] > 0:
                             drops["n"] -= 1
                             self.applied.append((idx, "drop", "ACK_EOF", item["side"]))
@@ -170,6 +174,9 @@ def run_case(case):
                     sigs.add(hashlib.sha1(f"eofseq|{case['seed']}|{ti}|{neof}".encode()).hexdigest()[:16])
                 if neof > 1:
                     obs["eof_regenerated_after_timer"] += neof - 1
+                    if any(ev["seq"] >= mark and ev["d"].get("kind") == "EOF" and ev["d"].get("cond") != "NO_ERROR" and 0 < ev["d"]["size"] < len(w.data)
+                           for ev in w.log.of("tx", "S")):
+                        obs["eof_cancel_mid_file_regenerated"] += 1
                 for ep in (w.S, w.D):
                     if ep.h.state.name != "IDLE":
                         ep.reset()
@@ -211,4 +218,4 @@ def exhaustive(tier):
 
 
 REQUIRED = {"calls_null": 100, "calls_modular": 100, "calls_crc32": 100, "calls_crc32c": 100, "verify_calls": 1000,
-            "eof_pdus_checked": 50, "eof_pdus_on_reused_sender": 50, "eof_regenerated_after_timer": 20, "eof_CANCEL_REQUEST_RECEIVED": 10, "eof_NO_ERROR": 10}
+            "eof_pdus_checked": 50, "eof_pdus_on_reused_sender": 50, "eof_regenerated_after_timer": 20, "eof_cancel_mid_file_regenerated": 3, "eof_CANCEL_REQUEST_RECEIVED": 10, "eof_NO_ERROR": 10}
